@@ -11,11 +11,13 @@ def cases(tier, seed):
         nonlocal n; n += 1
         out.append({'id': 'c%d' % n, 'kind': 'eval', 'expr': expr, 'input': doc, 'tags': list(tags)})
     def doc():
-        return {'a': {'b': rng.randint(0, 3), 'c': [1, 2], 'n': None}, 'list': [{'k': rng.choice('xyz'), 'v': rng.randint(0, 9), 'o': {'p': 1}} for _ in range(rng.randint(0, 4))],
+        return {'a': {'b': rng.randint(0, 3), 'c': [1, 2], 'n': None}, 'list': [{'k': rng.choice('xyz'), 'v': rng.randint(0, 9), 'o': {'p': 1}, 'drop': rng.choice(['k', 'v', 'o', ['k', 'v'], 'none', 5, ['o', 5]])} for _ in range(rng.randint(0, 4))],
                 'e': {}, 'ea': [], 's': 'str', 'nested': {'x': {'y': {'z': [{'w': 1}]}}}}
     pats = ['$', 'a', 'list', 'list[v > 3]', 'list.o', '**', '*', 'nested.x.y', 'nested.**', 'list[0]', '[list]', 'list[k = "x"]', 'nothing', 's', 'a.c', '$.a', 'list[-1]', 'nested.x.y.z', '{"new": 1}', 'a.{"b": b}']
     upds = ['{"z": 1}', '{"b": b + 1}', '{"v": v * 2, "w": k}', '{}', '{"o": {"q": 2}}', '{"k": nothing}', '5', '"s"', '[1]', 'nothing', '{"b": $$.s}', '{"a": {"deep": [1, {"x": 2}]}}']
-    dels = [None, '"b"', '["v", "o"]', '"missing"', '[]', '5', '["k", 5]', 'nothing', '"c"', '["b", "c", "n"]']
+    dels = [None, '"b"', '["v", "o"]', '"missing"', '[]', '5', '["k", 5]', 'nothing', '"c"', '["b", "c", "n"]',
+            # deletes that depend on the object being transformed
+            'drop', '[drop]', 'k', 'v > 3 ? "k" : "v"', 'v > 3 ? "k" : 5', 'v > 3 ? ["k", "o"]', '$string(k)', 'o.p = 1 ? "o"', '[k, "v"]', 'drop', 'drop']
     N = 1500 if tier == 'quick' else 80000
     for i in range(N):
         p, u, d = rng.choice(pats), rng.choice(upds), rng.choice(dels)
@@ -50,7 +52,7 @@ def cases(tier, seed):
 
 def run(tier, seed, replay=None):
     return simple_run('C07', tier, seed, replay,
-        'transforms with context-relative patterns, updates and deletes (valid and ill-typed), applied through ~>, $map, chains, bound to variables and called directly with wrong argument '
+        'transforms with context-relative patterns, updates and deletes (valid and ill-typed; updates and delete lists that differ per matched object), applied through ~>, $map, chains, bound to variables and called directly with wrong argument '
         'counts/types; built-ins that could reorder in place ($sort, $reverse, $append, $shuffle, $zip, $merge, $distinct, order-by, grouping); generated programs over every node type; '
         'documents with nulls, empty containers and nested objects; after every evaluation (successful or failing) the caller\'s document is deep-compared with a copy taken before, '
         'and the transform result is compared with the model; distinct = distinct (expression, input)',
